@@ -157,13 +157,13 @@ class StreamsDriver:
 def gen_trace(rnd, max_items=8):
     """a random scenario with up to 8 items and a random sequence of pull / release / cancel / abandon / close, recorded
     from the real stream"""
-    n = rnd.randint(1, max_items)
+    n = rnd.randint(0, max_items)
     init = dict(place=rnd.choice(["same", "other_scope", "outside", "other_task"]), n=n,
                 ending=rnd.choice(["normal", "error"]), nested=n >= 2 and rnd.random() < 0.5,
-                slow=rnd.choice([0, 0, rnd.randint(1, n)]), kind=rnd.choice(["agen", "agen", "factory", "factory", "raising"]))
+                slow=rnd.choice([0, 0, rnd.randint(1, n) if n else 0]), kind=rnd.choice(["agen", "agen", "factory", "factory", "raising"]))
     if init["kind"] == "raising":
-        init.update(n=1, nested=False, slow=0, ending="normal")
-        n = 1
+        init.update(n=0, nested=False, slow=0, ending="normal")
+        n = 0
     d = StreamsDriver()
     d.reset(init)
     tr = [dict(ev="Init", init=init)]
@@ -173,9 +173,7 @@ def gen_trace(rnd, max_items=8):
             if sst == "pulling":
                 name = rnd.choice(["Release", "Release", "CancelPull"])
             else:
-                ch = ["Pull"] * 8
-                if sst in ("fresh", "open"):
-                    ch += ["Close"]
+                ch = ["Pull"] * 8 + ["Close"]
                 if sst == "open":
                     ch += ["Abandon"]
                 name = rnd.choice(ch)
